@@ -12,7 +12,7 @@ import (
 func init() {
 	register(&propDef{
 		ID:          "C03",
-		Explanation: "Structural necessary conditions for total and exact decoding of arbitrary bytes, decided on SSA over everything reachable from the collector's decode entry points (decodePacket, getMessageLength, util.Decode, the element decoder): (1) R-BOUNDS.next: every bytes.Buffer.Next(n) is dominated by the fact buf.Len() >= n for the same buffer and the same n (so no field is built from fewer bytes than requested; with C15's width agreement no fixed-width read can index out of range); (2) R-BOUNDS.progress: every loop conditioned on buf.Len() > 0 reaches its back edge only through a progress test (a Len() snapshot taken at the top of the body compared after the iteration, the 'no progress' edge leaving the loop) - so degenerate templates (zero fields / zero-length fields) cannot loop forever; (3) R-ERR: every call on the decode path that returns an error has that error tested, returned or wrapped - none is dropped; (4) R-NIL: in the element decoder every index into / fixed-width read of the value slice is dominated by value != nil; (5) R-PANIC: no explicit panic is reachable from decodePacket through the repo call graph; (6) R-ALLOC: every make() on the decode/reader path has a size built from constants, <=16-bit wire values, len() of existing buffers and constructor configuration, so memory is O(message size); (7) R-BOUNDS.setlen: the set length decoded from the wire (7th header variable) flows into a bound (Truncate/Next) on the packet buffer before the set is decoded, so trailing bytes are not turned into records. Not decided: wall-clock promptness, agreement of decoded values with a reference parser (only consumption, order and totality), behaviour of bytes.Buffer/encoding/binary themselves. Later additions: the record loop has no successful exit but its condition; Buffer.Read counts are compared with the length asked for; the variable-length prefix is read as the writer writes it; the field-specifier values are fresh per field; the stream reader consumes the message on every iteration and leaves on errors (C11's rules). Round-five additions: the argument of Buffer.Truncate is proven within [0, Len()]; buffer sizes are not computed in a narrow integer type. Round-six additions: the decoder makes one element slice per record.",
+		Explanation: "Structural necessary conditions for total and exact decoding of arbitrary bytes, decided on SSA over everything reachable from the collector's decode entry points (decodePacket, getMessageLength, util.Decode, the element decoder): (1) R-BOUNDS.next: every bytes.Buffer.Next(n) is dominated by the fact buf.Len() >= n for the same buffer and the same n (so no field is built from fewer bytes than requested; with C15's width agreement no fixed-width read can index out of range); (2) R-BOUNDS.progress: every loop conditioned on buf.Len() > 0 reaches its back edge only through a progress test (a Len() snapshot taken at the top of the body compared after the iteration, the 'no progress' edge leaving the loop) - so degenerate templates (zero fields / zero-length fields) cannot loop forever; (3) R-ERR: every call on the decode path that returns an error has that error tested, returned or wrapped - none is dropped; (4) R-NIL: in the element decoder every index into / fixed-width read of the value slice is dominated by value != nil; (5) R-PANIC: no explicit panic is reachable from decodePacket through the repo call graph; (6) R-ALLOC: every make() on the decode/reader path has a size built from constants, <=16-bit wire values, len() of existing buffers and constructor configuration, so memory is O(message size); (7) R-BOUNDS.setlen: the set length decoded from the wire (7th header variable) flows into a bound (Truncate/Next) on the packet buffer before the set is decoded, so trailing bytes are not turned into records. Not decided: wall-clock promptness, agreement of decoded values with a reference parser (only consumption, order and totality), behaviour of bytes.Buffer/encoding/binary themselves. Later additions: the record loop has no successful exit but its condition; Buffer.Read counts are compared with the length asked for; the variable-length prefix is read as the writer writes it; the field-specifier values are fresh per field; the stream reader consumes the message on every iteration and leaves on errors (C11's rules). Round-five additions: the argument of Buffer.Truncate is proven within [0, Len()]; buffer sizes are not computed in a narrow integer type. Round-six additions: the decoder makes one element slice per record. Round-seven addition (imported from C04): the decode path reads no per-process state besides the configuration and the template entry of this (domain, id) - a cache of placeholder elements keyed without the declared length would decode later sets with a stale width.",
 		Assume:      []string{"bytes.Buffer, bufio and encoding/binary behave as documented", "fixed-width decoder reads need exactly InfoElement.Len bytes (decided by C15's codec agreement)"},
 		Run:         runC03,
 	})
